@@ -32,19 +32,6 @@ Section R.
            match a with [] => True | (_, c) :: a' => (wf c /\ is_tuple c = false) /\ go a' end) attrs
     end.
 
-  (* no float constant is held directly by a Collection (anywhere in the tree) *)
-  Fixpoint coll_const_free (n : node) : Prop :=
-    match n with
-    | NPrior _ | NConst _ | NTuple _ => True
-    | NBin _ _ _ l r => coll_const_free l /\ coll_const_free r
-    | NModel _ _ attrs =>
-        (fix go (a : list (string * node)) : Prop :=
-           match a with [] => True | (_, c) :: a' => coll_const_free c /\ go a' end) attrs
-    | NColl attrs =>
-        (fix go (a : list (string * node)) : Prop :=
-           match a with [] => True | (_, c) :: a' => (coll_const_free c /\ is_const V c = false) /\ go a' end) attrs
-    end.
-
   Lemma wf_model cls ctor attrs : wf (NModel cls ctor attrs) <-> Forall (fun kc => wf (snd kc)) attrs.
   Proof.
     simpl. induction attrs as [|[k c] a IH]; simpl.
@@ -55,26 +42,6 @@ Section R.
   Qed.
 
   Lemma wf_coll attrs : wf (NColl attrs) <-> Forall (fun kc => wf (snd kc) /\ is_tuple (snd kc) = false) attrs.
-  Proof.
-    simpl. induction attrs as [|[k c] a IH]; simpl.
-    - split; intro; constructor.
-    - split; intro H.
-      + constructor; [exact (proj1 H)|apply IH; exact (proj2 H)].
-      + inversion H; subst. split; [assumption|apply IH; assumption].
-  Qed.
-
-  Lemma ccf_model cls ctor attrs :
-    coll_const_free (NModel cls ctor attrs) <-> Forall (fun kc => coll_const_free (snd kc)) attrs.
-  Proof.
-    simpl. induction attrs as [|[k c] a IH]; simpl.
-    - split; intro; constructor.
-    - split; intro H.
-      + constructor; [exact (proj1 H)|apply IH; exact (proj2 H)].
-      + inversion H; subst. split; [assumption|apply IH; assumption].
-  Qed.
-
-  Lemma ccf_coll attrs :
-    coll_const_free (NColl attrs) <-> Forall (fun kc => coll_const_free (snd kc) /\ is_const V (snd kc) = false) attrs.
   Proof.
     simpl. induction attrs as [|[k c] a IH]; simpl.
     - split; intro; constructor.
@@ -152,7 +119,7 @@ Section R.
       | [] => Some []
       | (k, c) :: a' =>
           match c with
-          | NConst _ | NTuple _ => rebuild_items a'
+          | NTuple _ => rebuild_items a'
           | _ => match rebuild V sigma c, rebuild_items a' with
                  | Some c', Some r => Some ((k, c') :: r)
                  | _, _ => None
@@ -162,7 +129,7 @@ Section R.
 
     Lemma rebuild_items_cons k c a :
       rebuild_items ((k, c) :: a) =
-      if is_const V c || is_tuple c then rebuild_items a
+      if is_tuple c then rebuild_items a
       else match rebuild V sigma c, rebuild_items a with
            | Some c', Some r => Some ((k, c') :: r)
            | _, _ => None
@@ -246,14 +213,12 @@ Section R.
         clear E. revert a' Ea. induction attrs as [|[k c] a IHa]; intros a' Ea.
         + inversion Ea; subst. reflexivity.
         + inversion IH as [|? ? IHc IHrest]; subst. inversion W as [|? ? [Wc Wt] Wrest]; subst.
-          simpl in Wc, Wt. rewrite rebuild_items_cons in Ea. rewrite Wt, orb_false_r in Ea.
+          simpl in Wc, Wt. rewrite rebuild_items_cons in Ea. rewrite Wt in Ea.
           unfold walk_attrs in *. cbn [flat_map fst snd].
-          destruct (is_const V c) eqn:Cc.
-          * destruct c; try discriminate Cc. simpl. apply IHa; auto.
-          * destruct (rebuild V sigma c) as [c'|] eqn:Ec; [|discriminate].
-            destruct (rebuild_items a) as [r0|] eqn:Er; [|discriminate].
-            inversion Ea; subst. cbn [flat_map fst snd].
-            rewrite ren_walk_app, ren_walk_prefix. rewrite (IHc Wc _ Ec). f_equal. apply IHa; auto.
+          destruct (rebuild V sigma c) as [c'|] eqn:Ec; [|discriminate].
+          destruct (rebuild_items a) as [r0|] eqn:Er; [|discriminate].
+          inversion Ea; subst. cbn [flat_map fst snd].
+          rewrite ren_walk_app, ren_walk_prefix. rewrite (IHc Wc _ Ec). f_equal. apply IHa; auto.
     Qed.
 
     (* ---------- the rebuild succeeds exactly when every prior of the model has an entry ---------- *)
@@ -302,7 +267,7 @@ Section R.
           inversion IH as [|? ? IHc IHrest]; subst. inversion W as [|? ? [Wc Wt] Wrest]; subst. simpl in IHc, Wc, Wt.
           rewrite rebuild_items_cons.
           destruct (IHa IHrest Wrest) as [r Er]; [intros q Hq; apply T; apply prior_ids_cons; right; exact Hq|].
-          destruct (is_const V c || is_tuple c); [exists r; exact Er|].
+          destruct (is_tuple c); [exists r; exact Er|].
           destruct (IHc Wc) as [c' Ec]; [intros q Hq; apply T; apply prior_ids_cons; left; exact Hq|].
           rewrite Ec, Er. eexists; reflexivity. }
         destruct X as [a' Ea]. rewrite Ea. eexists; reflexivity.
@@ -352,16 +317,13 @@ Section R.
         apply wf_coll in W. unfold prior_ids in Hq. rewrite walk_coll in Hq. clear E.
         revert a' Ea. induction attrs as [|[k c] a IHa]; intros a' Ea; [contradiction|].
         inversion IH as [|? ? IHc IHrest]; subst. inversion W as [|? ? [Wc Wt] Wrest]; subst. simpl in Wc, Wt.
-        rewrite rebuild_items_cons in Ea. rewrite Wt, orb_false_r in Ea.
+        rewrite rebuild_items_cons in Ea. rewrite Wt in Ea.
         apply prior_ids_cons in Hq.
-        destruct (is_const V c) eqn:Cc.
-        + destruct Hq as [Hq|Hq]; [destruct c; try discriminate Cc; contradiction|].
-          apply (IHa IHrest Wrest Hq a' Ea).
-        + destruct (rebuild V sigma c) as [c'|] eqn:Ec; [|discriminate].
-          destruct (rebuild_items a) as [r|] eqn:Er; [|discriminate].
-          destruct Hq as [Hq|Hq].
-          * apply (IHc Wc _ Ec q Hq).
-          * apply (IHa IHrest Wrest Hq r eq_refl).
+        destruct (rebuild V sigma c) as [c'|] eqn:Ec; [|discriminate].
+        destruct (rebuild_items a) as [r|] eqn:Er; [|discriminate].
+        destruct Hq as [Hq|Hq].
+        + apply (IHc Wc _ Ec q Hq).
+        + apply (IHa IHrest Wrest Hq r eq_refl).
     Qed.
   End Sub.
 End R.
